@@ -148,7 +148,7 @@ class RightElement(Spec):
 
     def __init__(self, cls, which):
         self.cls, self.which = cls, which
-        self.qualname = f"{cls.__name__}.is_right_{which}"
+        self.qualname = f"{defining_class(cls, 'is_right_' + which)}.is_right_{which}"  # an inherited default is proved for the inheriting class too
 
     @property
     def globals(self):
@@ -370,6 +370,303 @@ class Fold(Spec):
         return N14.check_fold_method(self.cls.name, inst["w"], inst["lc"], inst["rc"], m["lhs_value"], m["rhs_value"])
 
 
+
+# ------------------------------------------------------------------ rewrite patterns with a denotation ghost
+VALB = z3.Function("value_bits", I, I)  # denotation of an SSA value: its bit pattern at the type's width
+
+
+class RewriteSpec(Spec):
+    """
+    Common machinery for the arith canonicalization patterns: SSA values denote bit patterns VALB(v); `const_evaluate_operand(v)` returns the stored
+    (normalised) integer of a constant operand - then VALB(v) = bits(c) - or None; `rewriter.replace(op, new_ops, new_results)` carries the
+    OBLIGATION that the replacement denotes the value of op's result for ALL values of the non-constant operands ("never changes the values
+    it returns"); freshly built ops denote their MLIR semantics.
+    """
+
+    prop, file = PROP, CP
+
+    def op_value(self, st):
+        raise NotImplementedError
+
+    def width_of(self, v):
+        return self.w
+
+    def _calls(self):
+        spec = self
+        from pyvc.engine import Res
+
+        def b_const_eval(ex, st, args, kw):
+            v = args[0].z
+            out = []
+            for is_const, bs in ex.split(st, bs_flag(st, v)):
+                if not is_const:
+                    out.append(Res("val", None, bs))
+                    continue
+                w = spec.width_of(v)
+                c = bs.fresh_int("const")
+                bs.assume(z3.And(in_signed(c, w), VALB(v) == bits(c, w)))
+                out.append(Res("val", VInt(c), bs))
+            return out
+
+        def bs_flag(st, v):
+            return z3.Bool(f"is_constant_{v}")
+
+        def b_replace(ex, st, args, kw):
+            # rewriter.replace(op, new_ops, new_results=None): the value that replaces op.result
+            new_ops = args[1] if len(args) > 1 else kw.get("new_ops")
+            new_results = args[2] if len(args) > 2 else kw.get("new_results")
+            if new_results is not None:
+                items = new_results.items if isinstance(new_results, VTuple) else None
+                rv = VALB(items[0].z)
+            else:
+                last = new_ops.items[-1] if isinstance(new_ops, VTuple) else new_ops
+                rv = spec.built[last.z.get_id()] if last.z.get_id() in spec.built else VALB(last.z)
+            target, defined = spec.op_value(st)
+            ex.oblige(st, "call-pre", "replace:the-replacement-denotes-the-value-of-the-replaced-result", z3.Implies(defined, rv == target), "property")
+            st.ghost["replaced"] = z3.BoolVal(True)
+            return [Res("val", None, st)]
+
+        b_replace.ghost_modifies = ["replaced"]
+        return {"const_evaluate_operand": Builtin(b_const_eval, "constant operand: its stored integer c with VALB(v) = bits(c); else None"),
+                "rewriter.replace": Builtin(b_replace, "PatternRewriter.replace: the replacement must denote the same value (C11 covers the rewriter itself)")}
+
+
+class SelectPatterns(RewriteSpec):
+    """SelectConstPattern / SelectTrueFalsePattern / SelectSamePattern: select c, x, y  ==  (c ? x : y) on bit patterns, c an i1."""
+
+    def __init__(self, cls):
+        self.cls = cls
+        self.qualname = f"{cls}.match_and_rewrite"
+
+    @property
+    def calls(self):
+        spec = self
+        from pyvc.engine import Res
+
+        c = self._calls()
+
+        def b_xor(ex, st, args, kw):
+            r = st.fresh_int("xor_op")
+            # arith.xori on i1: addition modulo 2 of the two bits
+            spec.built[r.get_id()] = (VALB(args[0].z) + VALB(args[1].z)) % 2
+            return [Res("val", VRef(r, "Operation"), st)]
+
+        c["arith.XOrIOp"] = Builtin(b_xor, "arith.xori a, b : i1 denotes (a + b) mod 2")
+        c["IntegerType"] = Builtin(lambda ex, st, a, k: [Res("val", VRef(z3.IntVal(1000 + a[0]), "IntegerType"), st)], "")
+        return c
+
+    @property
+    def globals(self):
+        spec = self
+
+        def getattr_(ex, st, base, attr):
+            if base.cls == "SelectOp" and attr in ("cond", "lhs", "rhs"):
+                return VRef(spec.v[attr], "SSAValue")
+            if base.cls == "SelectOp" and attr == "result":
+                return VRef(z3.IntVal(40), "OpResult")
+            if base.cls == "OpResult" and attr == "type":
+                return VRef(z3.IntVal(1000 + spec.w), "IntegerType")
+            return None
+
+        return {"__getattr__": getattr_, "arith": VGlobal("arith")}
+
+    def setup(self, st, inst):
+        self.w = inst["w"]
+        self.built = {}
+        same = inst.get("same_arms", False)
+        self.v = {"cond": z3.IntVal(11), "lhs": z3.IntVal(12), "rhs": z3.IntVal(12 if same else 13)}
+        st.ghost["replaced"] = z3.BoolVal(False)
+        for k in ("cond", "lhs", "rhs"):
+            st.declare_input(f"{k}_bits", VALB(self.v[k]))
+        return {"self": VRef(z3.IntVal(1)), "op": VRef(z3.IntVal(2), "SelectOp"), "rewriter": VRef(z3.IntVal(3), "PatternRewriter")}
+
+    def width_of(self, v):
+        return 1 if v.eq(self.v["cond"]) else self.w
+
+    def pre(self, st, a):
+        w = self.w
+        return [A("condition-is-a-bit", z3.And(VALB(self.v["cond"]) >= 0, VALB(self.v["cond"]) <= 1)),
+                A("arms-are-values-of-the-type", z3.And(VALB(self.v["lhs"]) >= 0, VALB(self.v["lhs"]) < (1 << w), VALB(self.v["rhs"]) >= 0, VALB(self.v["rhs"]) < (1 << w)))]
+
+    def op_value(self, st):
+        return z3.If(VALB(self.v["cond"]) != 0, VALB(self.v["lhs"]), VALB(self.v["rhs"])), z3.BoolVal(True)
+
+    def post(self, old, st, a, res):
+        return [A("pattern-returns", z3.BoolVal(True))]
+
+    def replay(self, inst, m):
+        return N14.check_select_pattern(self.cls, inst["w"], inst.get("same_arms", False), m)
+
+
+class IntBinaryPatterns(RewriteSpec):
+    """
+    SignlessIntegerBinaryOperationZeroOrUnitRight / ...ConstantProp executed for the concrete class K (own is_right_zero / is_right_unit /
+    py_operation inlined, Commutative read from the live class).
+    """
+
+    def __init__(self, pattern, cls):
+        self.pattern, self.cls = pattern, cls
+        self.qualname = f"{pattern}.match_and_rewrite"
+        # callee contracts (each discharged as its own unit): used modularly, the bodies are not re-executed here
+        self._c_py, self._c_zero, self._c_unit = PyOperation(cls), RightElement(cls, "zero"), RightElement(cls, "unit")
+        self._c_comm = Commutes(cls)
+
+    @property
+    def globals(self):
+        spec = self
+
+        def getattr_(ex, st, base, attr):
+            if base.cls == "BinOp" and attr in ("lhs", "rhs"):
+                return VRef(spec.v[attr], "SSAValue")
+            if base.cls == "BinOp" and attr == "result":
+                return VRef(z3.IntVal(40), "OpResult")
+            if base.cls == "OpResult" and attr == "type":
+                return VRef(z3.IntVal(77), "IntegerType")
+            if base.cls == "IntegerAttr" and attr == "value":
+                return VRef(base.z, "IntAttr")
+            if base.cls == "IntAttr" and attr == "data":
+                return VInt(spec.val[base.z.get_id()])
+            if base.cls == "IntegerAttr" and attr == "type":
+                return VRef(z3.IntVal(77), "IntegerType")
+            return None
+
+        def eq(ex, st, x, y):
+            from pyvc.values import lift_bool
+
+            if isinstance(x, VRef) and isinstance(y, VRef) and x.cls == y.cls == "IntegerAttr":
+                return lift_bool(spec.val[x.z.get_id()] == spec.val[y.z.get_id()])
+            return None
+
+        def isinst(ex, st, v, cls):
+            return True  # `assert isinstance(op.result.type, IntegerType | IndexType)`: integer-typed by construction
+
+        return {"__getattr__": getattr_, "__eq__": eq, "__isinstance__": isinst, "Commutative": VGlobal("Commutative"), "arith": VGlobal("arith"),
+                "IntegerType": VGlobal("IntegerType"), "IndexType": VGlobal("IndexType")}
+
+    @property
+    def calls(self):
+        spec = self
+        from pyvc.engine import Res
+
+        c = self._calls()
+
+        def b_const_attr(ex, st, args, kw):
+            v = args[0].z
+            out = []
+            for is_const, bs in ex.split(st, z3.Bool(f"is_constant_{v}")):
+                if not is_const:
+                    out.append(Res("val", None, bs))
+                    continue
+                r = bs.fresh_int("cattr")
+                cval = bs.fresh_int("const")
+                bs.assume(z3.And(r > 100, in_signed(cval, spec.w), VALB(v) == bits(cval, spec.w)))
+                spec.val[r.get_id()] = cval
+                out.append(Res("val", VRef(r, "IntegerAttr"), bs))
+            return out
+
+        def b_integer_attr(ex, st, args, kw):
+            r = st.fresh_int("attr")
+            st.assume(r > 100)
+            spec.val[r.get_id()] = sgn(z_int(args[0]), spec.w)
+            return [Res("val", VRef(r, "IntegerAttr"), st)]
+
+        def b_from_int(ex, st, args, kw):
+            r = st.fresh_int("const_op")
+            spec.built[r.get_id()] = bits(z_int(args[0]), spec.w)  # ConstantOp.from_int_and_width(v, t, truncate_bits=True): the bit pattern of v
+            return [Res("val", VRef(r, "Operation"), st)]
+
+        def b_same_class(ex, st, args, kw):
+            r = st.fresh_int("swapped_op")
+            val, _ = mlir_semantics(spec.cls.name)(VALB(args[0].z), VALB(args[1].z), spec.w)
+            spec.built[r.get_id()] = val
+            return [Res("val", VRef(r, "Operation"), st)]
+
+        def b_has_trait(ex, st, args, kw):
+            from xdsl.traits import Commutative
+
+            if spec.cls.has_trait(Commutative):
+                ex.note_contract(spec._c_comm)
+            return [Res("val", bool(spec.cls.has_trait(Commutative)), st)]
+
+        def b_py_operation(ex, st, args, kw):
+            """Callee contract PyOperation(K): ranges are obligations; a non-None result res satisfies (not poison) => bits(res) = MLIR(bits l, bits r)."""
+            w = spec.w
+            l, r = z_int(args[0]), z_int(args[1])
+            ex.note_contract(spec._c_py)
+            n = ex.next_call()
+            ex.oblige(st, "call-pre", f"{n}:py_operation:lhs-range", in_signless(l, w), "aux")
+            ex.oblige(st, "call-pre", f"{n}:py_operation:rhs-range", in_signless(r, w), "aux")
+            exp, poison = mlir_semantics(spec.cls.name)(bits(l, w), bits(r, w), w)
+            out = []
+            for is_none, bs in ex.split(st, bs_fresh_bool(st, "py_operation_is_none")):
+                if is_none:
+                    out.append(Res("val", None, bs))
+                    continue
+                res = bs.fresh_int("py_res")
+                bs.assume(z3.Implies(z3.Not(poison), bits(res, w) == exp))
+                out.append(Res("val", VInt(res), bs))
+            return out
+
+        def bs_fresh_bool(st, name):
+            return st.fresh(name, z3.BoolSort())
+
+        def right_element(which, callee):
+            def b(ex, st, args, kw):
+                """Callee contract RightElement(K, which): True only if the constant really is a right zero / unit for EVERY operand bit pattern."""
+                w = spec.w
+                ex.note_contract(callee)
+                c = spec.val[args[0].z.get_id()]
+                n = ex.next_call()
+                ex.oblige(st, "call-pre", f"{n}:is_right_{which}:constant-normalised", in_signed(c, w), "aux")
+                rz = st.fresh(f"is_right_{which}", z3.BoolSort())
+                x, cbits = VALB(spec.v["lhs"]), bits(c, w)
+                val, poison = mlir_semantics(spec.cls.name)(x, cbits, w)
+                st.assume(z3.Implies(z3.And(rz, z3.Not(poison)), val == (x if which == "unit" else cbits)))
+                return [Res("val", VBool(rz), st)]
+            return b
+
+        c.update({"const_evaluate_operand_attribute": Builtin(b_const_attr, "constant operand: its IntegerAttr (stored value c, VALB = bits(c)); else None"),
+                  "arith.ConstantOp.from_int_and_width": Builtin(b_from_int, "a constant with the bit pattern of the value"),
+                  "op.__class__": Builtin(b_same_class, "an op of the same class on the given operands: denotes the class's MLIR semantics"),
+                  "op.has_trait": Builtin(b_has_trait, "trait read from the live class (truthfulness: unit Commutes)"),
+                  "op.py_operation": Builtin(b_py_operation, "contract of K.py_operation (unit PyOperation)"),
+                  "op.is_right_zero": Builtin(right_element("zero", spec._c_zero), "contract of K.is_right_zero (unit RightElement)"),
+                  "op.is_right_unit": Builtin(right_element("unit", spec._c_unit), "contract of K.is_right_unit (unit RightElement)")})
+        return c
+
+    def setup(self, st, inst):
+        self.w = inst["w"]
+        self.built, self.val = {}, {}
+        self.v = {"lhs": z3.IntVal(12), "rhs": z3.IntVal(13)}
+        st.ghost["replaced"] = z3.BoolVal(False)
+        for k in ("lhs", "rhs"):
+            st.declare_input(f"{k}_bits", VALB(self.v[k]))
+        return {"self": VRef(z3.IntVal(1)), "op": VRef(z3.IntVal(2), "BinOp"), "rewriter": VRef(z3.IntVal(3), "PatternRewriter")}
+
+    def pre(self, st, a):
+        from xdsl.traits import Commutative
+
+        w = self.w
+        lem = []
+        if self.cls.has_trait(Commutative):
+            # lemma Commutes(K) (its own unit): the trait is truthful, instantiated at the two operand bit patterns
+            sem = mlir_semantics(self.cls.name)
+            x, y = VALB(self.v["lhs"]), VALB(self.v["rhs"])
+            lem = [A("lemma-proved-by-unit-Commutes:Commutative-trait-is-truthful", sem(x, y, w)[0] == sem(y, x, w)[0])]
+        return lem + [A("operands-are-values-of-the-type", z3.And(VALB(self.v["lhs"]) >= 0, VALB(self.v["lhs"]) < (1 << w),
+                                                                                         VALB(self.v["rhs"]) >= 0, VALB(self.v["rhs"]) < (1 << w)))]
+
+    def op_value(self, st):
+        val, poison = mlir_semantics(self.cls.name)(VALB(self.v["lhs"]), VALB(self.v["rhs"]), self.w)
+        return val, z3.Not(poison)
+
+    def post(self, old, st, a, res):
+        return [A("pattern-returns", z3.BoolVal(True))]
+
+    def replay(self, inst, m):
+        return N14.check_int_pattern(self.pattern, self.cls.name, inst["w"], m.get("lhs_bits", 0), m.get("rhs_bits", 0))
+
+
 # ------------------------------------------------------------------ float folding
 class FoldConst(Spec):
     prop, file, qualname = PROP, CP, "_fold_const_operation"
@@ -499,16 +796,22 @@ def make_specs(tier):
         W = [{"w": w} for w in ws]
         if "py_operation" in cls.__dict__:
             add(PyOperation(cls), W)
-        if "is_right_unit" in cls.__dict__:
-            add(RightElement(cls, "unit"), W)
-        if "is_right_zero" in cls.__dict__:
-            add(RightElement(cls, "zero"), W)
+        for which in ("unit", "zero"):
+            own = f"is_right_{which}" in cls.__dict__
+            add(RightElement(cls, which), W if own else [{"w": w, "cls": cls.__name__} for w in ws])
         if cls.has_trait(Commutative) and "py_operation" in cls.__dict__:
             add(Commutes(cls), W)
         fw = [w for w in ws if w in (1, 8, 64)] if tier == "quick" else ws
         f = Fold(cls)
         f.qualname_note = cls.__name__
         add(f, [{"cls": cls.__name__, "w": w, "lc": lc, "rc": rc} for w in fw for lc in (False, True) for rc in (False, True)])
+    for pc in ("SelectConstPattern", "SelectTrueFalsePattern", "SelectSamePattern"):
+        add(SelectPatterns(pc), [{"w": w, "same_arms": sa} for w in (1, 8, 64) for sa in (False, True)])
+    for cls in integer_binary_classes():
+        if mlir_semantics(cls.name) is None:
+            continue
+        for pat in ("SignlessIntegerBinaryOperationZeroOrUnitRight", "SignlessIntegerBinaryOperationConstantProp"):
+            add(IntBinaryPatterns(pat, cls), [{"cls": cls.__name__, "w": w} for w in ((1, 8, 64) if tier == "quick" else ws)])
     add(FoldConst(), [{"op": o} for o in ("AddfOp", "SubfOp", "MulfOp", "DivfOp", "MaximumfOp")])
     add(CmpiEqualOperands(), [{"w": w, "pred": p, "same": True} for w in (1, 8, 64) for p in range(10)] + [{"w": 8, "pred": 2, "same": False}])
     return specs
@@ -519,8 +822,10 @@ ASSUMPTIONS = [
     "IntegerAttr(v, t) stores the signed representative of v (contract of IntegerType.normalized_value, proved in C08)",
     "f32/f16 constants folded in binary64 and rounded once by FloatAttr are correctly rounded for + - * / (double-rounding theorem, 53 >= 2*24+2): assumed, "
     "the SMT query stays unknown; the bounded stand-in exercises f32 programs",
-    "SignlessIntegerBinaryOperation.fold and the ConstantProp / ZeroOrUnitRight / Select* / FoldConstsByReassociation patterns compose the per-class lemmas "
-    "through the rewriter; they are covered by the bounded stand-in (programs evaluated before and after the passes), not by discharged contracts",
+    "the fold method and the ConstantProp / ZeroOrUnitRight / Select* patterns are verified against the per-class lemmas with trusted models of "
+    "const_evaluate_operand(_attribute) (a constant operand yields its stored normalised integer), ConstantOp.from_int_and_width (bit pattern of the value), "
+    "K(lhs, rhs) (denotes K's MLIR semantics) and rewriter.replace (C11); FoldConstsByReassociation, FoldConstConstOp, the cmpi-constant and float pattern "
+    "plumbing are covered by the bounded stand-in only",
     "index-typed constants: lemmas are stated at width 64",
 ]
 
